@@ -744,16 +744,17 @@ class Fn:
             flds = fields_of(a.l) | fields_of(a.r)
             killed = False
             for st in self.events_between_edge_and(edge, ev):
+                k = False
                 if st.kind == 'STORE':
                     l = unwrap(st.lhs)
                     if l.get('k') == 'var' and l['n'] in names:
-                        killed = True
+                        k = True
                     lf = last_field(st.lhs)
                     if lf and lf in flds and estr(st.lhs) in (a.ls, a.rs) or \
                             (lf and any(estr(st.lhs) == estr(n) for n in list(walk(a.l)) + list(walk(a.r)))):
-                        killed = True
+                        k = True
                 elif st.kind == 'DECL' and st.d['var'] in names:
-                    killed = True
+                    k = True
                 elif st.kind == 'CALL':
                     # &var passed to a call may overwrite it
                     for arg in st.args:
@@ -761,9 +762,15 @@ class Fn:
                         if au.get('k') == 'addr':
                             rv = root_var(au)
                             if rv is not None and rv['n'] in names and unwrap(au['e']).get('k') == 'var':
-                                killed = True
-                if killed:
-                    break
+                                k = True
+                if k:
+                    # it only kills if the event can be reached from the store without taking the guarding edge again
+                    (gf, gt, _gl) = edge
+                    hits, _e, _n = self.search(('after', st), goal=lambda x: x is ev or x.d is ev.d,
+                                               edge_filter=lambda fb, t, lab: not (fb.id == gf and t == gt))
+                    if hits:
+                        killed = True
+                        break
             if not killed:
                 res.append((a, edge))
         return res
